@@ -298,7 +298,9 @@ def case_forms(tokens, sep=" "):
 
 
 FORM_TOKENS = ["server", "add", "list", "echo", "--", "-p", "8080", "--port", "--port=80", "-p9", "-f", "-ft", "--tag", "x",
-               "a b", "", "--help", "-h", "-vv", "it's", 'say "hi"', "-", "--mode", "=", "a\\nb", u"é", "--quiet", "-m"]
+               "a b", "", "--help", "-h", "-vv", "it's", 'say "hi"', "-", "--mode", "=", "a\\nb", u"é", "--quiet", "-m",
+               # tokens that END in a line terminator (read from a file, CRLF scripts): part of the token in either form
+               "a\n", "--\n", "\r\n"]
 
 
 # ------------------------------------------------------------------------------------------------
